@@ -55,6 +55,9 @@ class C03(Prop):
             for _ in range(reps):
                 yield Case('immut', (e['name'], rng.randrange(1 << 30), rng.choice(['full', 'full', 0, 1, 2, 3, 4, 'two']),
                                      rng.random() < 0.4, rng.choice([None, None, 0, 1])))
+            # every operator also sees ragged list rows through to the end at least twice
+            for _ in range(2):
+                yield Case('immut', (e['name'], rng.randrange(1 << 30), 'full', True, None))
 
     def expand(self, case):
         if case.op == 'immut':
